@@ -285,6 +285,14 @@ class BundleFlattener(ElabPass):
                 self.fail(msg)
             inst.connect(flat_port.name, flat.signals[path])
 
+        # Everything connected must have been a member of the port.
+        # `ConnTypes` has checked this for `Instance`s; connections to `InstanceArray`s are first seen here.
+        extras = [path.to_name() for path in flat.signals if path not in flat_bundle_port.signals]
+        if extras:
+            msg = f"Invalid connection to `{portname}` on Instance `{inst.name}`: "
+            msg += f"no members `{extras}` in its Bundle"
+            self.fail(msg)
+
     def flatten_bundle_inst(
         self, bundle_inst: BundleInstance, path: Path
     ) -> BundleScope:
